@@ -3,6 +3,7 @@ module bipverif
 go 1.23
 
 require (
+	golang.org/x/crypto v0.17.0
 	golang.org/x/text v0.14.0
 	golang.org/x/tools v0.29.0
 )
